@@ -524,6 +524,11 @@ class Rmcp(object):
 
     def establish_session(self, session):
         self._session = None
+        # the caller's Session object may have carried a session before (one
+        # that was lost stays "activated"): nothing of it enters this handshake
+        session.activated = False
+        session.sid = 0
+        session.sequence_number = 0
         self.host = session._rmcp_host
         self.port = session._rmcp_port
 
